@@ -48,6 +48,7 @@ def families_e3(prop, tier, seed):
     fams.append(('mirrored within-word expressions', mirrored_subword_family()))
     fams.append(('runs of optional items', optional_runs_family(tier)))
     fams.append(('one within-word expression written with || and with |', same_subword_twice_shapes()))
+    fams.append(('twins(seed=%d): a random subtree and a slightly varied copy' % seed, gram.twin_family(seed + 101, 300 if tier == 'quick' else 3000)))
     from . import regress
     fams.append(('regression shapes', [regress.HOPCROFT_SPLITTER]))
     nloop = 1000 if tier == 'quick' else 10000
@@ -376,6 +377,8 @@ def family_c09(tier, seed):
     out.extend(gram.random_family(seed + 31, 60 if tier == 'quick' else 600, allow_descr=False))
     small = gram.exhaustive_family(3 if tier == 'quick' else 4)
     out.extend(small)
+    # a random subtree and a slightly varied copy of it (|| <-> |, permuted alternatives, descriptions) at two places
+    out.extend(gram.twin_family(seed + 57, 80 if tier == 'quick' else 800, allow_descr=False))
     return out
 
 
